@@ -861,4 +861,413 @@ def Prog.unambiguous (p : Prog) : Bool := p.unambiguousScope
 /-- the class today's surgery handles: no trigger of F-C08-1 / F-C08-2, unambiguous -/
 def Prog.clean (p : Prog) : Bool := !p.trigClimb && !p.trigRef true && p.unambiguous
 
+/-! ## Two rule variables
+
+Everything above abstracts the binding to one enumerated variable `x`. Here a second variable `y` may be
+*introduced by a branch*: a block's condition is then a relation between `x` and `y` (realised by the harness as
+`in_(x, y.r_k)`), evaluating it with `y` unbound enumerates the domain of `y`, and conclusions may be constructed
+from `x` alone or from `x` and `y` — by convention the classes numbered ≥ 1000 take both
+(`Add(views, inference(KY_c)(src=x, aux=y))`). A binding is `(x, some y)` or `(x, none)`.
+
+What this adds to the semantics, transcribed from the code:
+* a condition leaf can yield several results for one bound `x` (one per `y`), with different truth values;
+* the key `update_conclusion` stores in `concluded_before` is the projection of the binding onto the variables
+  of the conclusions **it is handed at that moment** (`keyOf`), and `SeenSet.check` is a *coverage* test: a stored
+  partial assignment that is a subset of the new one suppresses it (`covers`).
+With a payload that never mentions `y` these definitions coincide with the one-variable ones (the driver
+cross-checks that on every such case). -/
+
+/-- a binding: the value of `x` and, once a condition has enumerated it, of `y` -/
+abbrev Bnd := Nat × Option Nat
+
+/-- the second variable: its domain and, per block, the relation its condition states (none: a condition on `x`) -/
+structure Rel2 where
+  domY : List Nat := []
+  rel : Nat → Option (List (Nat × Nat)) := fun _ => none
+
+def Rel2.ofList (domY : List Nat) (rs : List (Option (List (Nat × Nat)))) : Rel2 :=
+  { domY := domY, rel := fun i => rs.getD i none }
+
+/-- classes numbered ≥ 1000 are constructed from both variables -/
+def classUsesY (c : Nat) : Bool := decide (c ≥ 1000)
+
+/-- projection of the binding onto the variables of the conclusions (`required_output`) -/
+def keyOf (concl : List Nat) (b : Bnd) : Bnd := (b.1, if concl.any classUsesY then b.2 else none)
+
+/-- `SeenSet.check`: the stored constraint is a subset of the assignment -/
+def covers (stored new : Bnd) : Bool :=
+  stored.1 == new.1 && (match stored.2 with | none => true | some y => new.2 == some y)
+
+structure Out2 where
+  b : Bnd
+  isF : Bool
+  concl : List Nat
+  deriving DecidableEq, Repr
+
+abbrev Seen2 := List (Nat × Bool × Bnd × List Nat)
+
+def update2 (d : Dedup) (id : Nat) (b : Bnd) (isF : Bool) (concl : List Nat) (seen : Seen2) :
+    List Nat × Seen2 :=
+  if concl.isEmpty then ([], seen)
+  else
+    let key := keyOf concl b
+    match d with
+    | .off => (concl, seen)
+    | .byBinding =>
+      if seen.any fun e => e.1 == id && e.2.1 == !isF && e.2.2.2 == [] && covers e.2.2.1 key then ([], seen)
+      else (concl, (id, !isF, key, []) :: seen)
+    | .byConclusion =>
+      if seen.any fun e => e.1 == id && e.2.1 == !isF && e.2.2.2 == concl && covers e.2.2.1 key then ([], seen)
+      else (concl, (id, !isF, key, concl) :: seen)
+
+/-- the bindings a condition leaf produces from the incoming ones. A condition on `x` enumerates `x` when it is
+unbound. A relation `in_(x, y.r)` evaluates the side whose variable is bound first: `x` bound → enumerates `y`;
+nothing bound → `y` outer, `x` inner. -/
+def leafBnds (r2 : Rel2) (dom : List Nat) (blk : Nat) (src : Option Bnd) : List Bnd :=
+  match r2.rel blk with
+  | none => (match src with | some b => [b] | none => dom.map fun x => (x, none))
+  | some _ =>
+    match src with
+    | none => r2.domY.flatMap fun y => dom.map fun x => (x, some y)
+    | some (x, none) => r2.domY.map fun y => (x, some y)
+    | some (x, some y) => [(x, some y)]
+
+def leafHolds (pay : Payload) (r2 : Rel2) (blk : Nat) (b : Bnd) : Bool :=
+  match r2.rel blk with
+  | none => (pay blk).cond.contains b.1
+  | some R => match b.2 with
+    | some y => R.contains (b.1, y)
+    | none => false
+
+def leafOuts2 (pay : Payload) (r2 : Rel2) (dom : List Nat) (blk : Nat) (concl : List Nat) (src : Option Bnd) :
+    List Out2 :=
+  (leafBnds r2 dom blk src).map fun b => ⟨b, !leafHolds pay r2 blk b, conclOf pay concl⟩
+
+def mapSeen2 {α} (f : α → Seen2 → List Out2 × Seen2) : List α → Seen2 → List Out2 × Seen2
+  | [], s => ([], s)
+  | a :: as, s =>
+    let (o1, s) := f a s
+    let (o2, s) := mapSeen2 f as s
+    (o1 ++ o2, s)
+
+/-- `evalT` over bindings. `leak` (F-C08-4, today: on): `Union.evaluate_left` hands a *false* left result's
+bindings to the right side — including a `y` that only the failed left side bound; off = the false result is
+passed on and the right side is evaluated from the incoming bindings only. -/
+def evalT2 (pay : Payload) (r2 : Rel2) (d : Dedup) (leak : Bool) (dom : List Nat) :
+    Sel → Option Bnd → Seen2 → List Out2 × Seen2
+  | .leaf _ blk concl, src, s => (leafOuts2 pay r2 dom blk concl src, s)
+  | .node .exceptIf id l r, src, s =>
+    let (ls, s) := evalT2 pay r2 d leak dom l src s
+    mapSeen2 (fun (lv : Out2) s =>
+      if lv.isF then ([⟨lv.b, true, []⟩], s)
+      else
+        let (rs, s) := evalT2 pay r2 d leak dom r (some lv.b) s
+        let trues := rs.filter fun o => !o.isF
+        if trues.isEmpty then
+          let (c, s) := update2 d id lv.b false lv.concl s
+          ([⟨lv.b, false, c⟩], s)
+        else
+          mapSeen2 (fun (rv : Out2) s =>
+            let (c, s) := update2 d id rv.b false rv.concl s
+            ([⟨rv.b, false, c⟩], s)) trues s) ls s
+  | .node .alt id l r, src, s =>
+    let (ls, s) := evalT2 pay r2 d leak dom l src s
+    mapSeen2 (fun (lv : Out2) s =>
+      if lv.isF then
+        let (rs, s) := evalT2 pay r2 d leak dom r (some lv.b) s
+        mapSeen2 (fun (rv : Out2) s =>
+          if rv.isF then ([⟨rv.b, true, []⟩], s)
+          else
+            let (c, s) := update2 d id rv.b false rv.concl s
+            ([⟨rv.b, false, c⟩], s)) rs s
+      else
+        let (c, s) := update2 d id lv.b false lv.concl s
+        ([⟨lv.b, false, c⟩], s)) ls s
+  | .node .next id l r, src, s =>
+    let (ls, s) := evalT2 pay r2 d leak dom l src s
+    let (o1, s) := mapSeen2 (fun (lv : Out2) s =>
+      if lv.isF && !leak then ([⟨lv.b, true, []⟩], s)
+      else if lv.isF then
+        let (rs, s) := evalT2 pay r2 d leak dom r (some lv.b) s
+        mapSeen2 (fun (rv : Out2) s =>
+          let (c, s) := update2 d id rv.b rv.isF rv.concl s
+          ([⟨rv.b, rv.isF, c⟩], s)) rs s
+      else
+        let (c, s) := update2 d id lv.b false lv.concl s
+        ([⟨lv.b, false, c⟩], s)) ls s
+    let (rs, s) := evalT2 pay r2 d leak dom r src s
+    let (o2, s) := mapSeen2 (fun (rv : Out2) s =>
+      let (c, s) := update2 d id rv.b rv.isF rv.concl s
+      ([⟨rv.b, rv.isF, c⟩], s)) rs s
+    (o1 ++ o2, s)
+
+def topOuts2 (outs : List Out2) : List (List Nat × Bnd) :=
+  outs.filterMap fun o => if o.isF || o.concl.isEmpty then none else some (o.concl, o.b)
+
+/-- the (binding, truth) results of a tree: independent of the mutable state -/
+def truths2 (pay : Payload) (r2 : Rel2) (leak : Bool) (dom : List Nat) : Sel → Option Bnd → List (Bnd × Bool)
+  | .leaf _ blk _, src => (leafBnds r2 dom blk src).map fun b => (b, !leafHolds pay r2 blk b)
+  | .node .exceptIf _ l r, src =>
+    (truths2 pay r2 leak dom l src).flatMap fun lv =>
+      if lv.2 then [(lv.1, true)]
+      else
+        let trues := (truths2 pay r2 leak dom r (some lv.1)).filter fun o => !o.2
+        if trues.isEmpty then [(lv.1, false)] else trues
+  | .node .alt _ l r, src =>
+    (truths2 pay r2 leak dom l src).flatMap fun lv =>
+      if lv.2 then truths2 pay r2 leak dom r (some lv.1) else [lv]
+  | .node .next _ l r, src =>
+    ((truths2 pay r2 leak dom l src).flatMap fun lv =>
+      if lv.2 && leak then truths2 pay r2 leak dom r (some lv.1) else [lv]) ++ truths2 pay r2 leak dom r src
+
+def anyTrue2 (pay : Payload) (r2 : Rel2) (leak : Bool) (dom : List Nat) (t : Sel) (b : Bnd) : Bool :=
+  (truths2 pay r2 leak dom t (some b)).any fun o => !o.2
+
+structure KSt2 where
+  ns : List NSt
+  seen : Seen2 := []
+  out : List (List Nat × Bnd) := []
+
+namespace KSt2
+def get (s : KSt2) (i : Nat) : NSt := s.ns.getD i {}
+def upd (s : KSt2) (i : Nat) (f : NSt → NSt) : KSt2 := { s with ns := s.ns.set i (f (s.get i)) }
+
+def updateConclusion (d : Dedup) (s : KSt2) (id : Nat) (b : Bnd) (concl : List Nat) : KSt2 :=
+  if concl.isEmpty then s
+  else
+    let key := keyOf concl b
+    let truth := !(s.get id).isF
+    let seenBefore := match d with
+      | .off => false
+      | .byBinding => s.seen.any fun e => e.1 == id && e.2.1 == truth && e.2.2.2 == [] && covers e.2.2.1 key
+      | .byConclusion =>
+        s.seen.any fun e => e.1 == id && e.2.1 == truth && e.2.2.2 == concl && covers e.2.2.1 key
+    if seenBefore then s
+    else
+      let s := s.upd id fun n =>
+        { n with concl := concl.foldl (fun acc c => if acc.contains c then acc else acc ++ [c]) n.concl }
+      match d with
+      | .off => s
+      | .byBinding => { s with seen := (id, truth, key, []) :: s.seen }
+      | .byConclusion => { s with seen := (id, truth, key, concl) :: s.seen }
+end KSt2
+
+/-- `evalK` over bindings -/
+def evalK2 (pay : Payload) (r2 : Rel2) (d : Dedup) (leak : Bool) (dom : List Nat) :
+    Sel → Option Bnd → (Bnd → Bool → KSt2 → KSt2) → KSt2 → KSt2
+  | .leaf id blk _, src, k, s =>
+    (leafBnds r2 dom blk src).foldl (fun s b =>
+      let f := !leafHolds pay r2 blk b
+      k b f (s.upd id fun n => { n with isF := f })) s
+  | .node .exceptIf id l r, src, k, s =>
+    evalK2 pay r2 d leak dom l src (fun x f s =>
+      let s := s.upd id fun n => { n with isF := f }
+      if f then k x true s
+      else
+        let s := evalK2 pay r2 d leak dom r (some x) (fun x2 f2 s =>
+          if f2 then s
+          else
+            let s := s.updateConclusion d id x2 (s.get r.id).concl
+            let s := k x2 (s.get id).isF s
+            s.upd id fun n => { n with concl := [] }) s
+        if anyTrue2 pay r2 leak dom r x then s
+        else
+          let s := s.updateConclusion d id x (s.get l.id).concl
+          let s := k x (s.get id).isF s
+          s.upd id fun n => { n with concl := [] }) s
+  | .node .alt id l r, src, k, s =>
+    let post := fun (x : Bnd) (s : KSt2) =>
+      let s :=
+        if !(s.get l.id).isF then s.updateConclusion d id x (s.get l.id).concl
+        else if !(s.get r.id).isF then s.updateConclusion d id x (s.get r.id).concl
+        else s
+      let s := k x (s.get id).isF s
+      s.upd id fun n => { n with concl := [] }
+    evalK2 pay r2 d leak dom l src (fun x f s =>
+      let s := s.upd id fun n => { n with le := true }
+      if f then
+        let s := s.upd id fun n => { n with le := false }
+        let s := evalK2 pay r2 d leak dom r (some x) (fun x2 f2 s =>
+          post x2 (s.upd id fun n => { n with isF := f2, re := true })) s
+        s.upd id fun n => { n with re := false }
+      else post x (s.upd id fun n => { n with isF := false })) s
+  | .node .next id l r, src, k, s =>
+    let post := fun (x : Bnd) (s : KSt2) =>
+      let s := if (s.get id).le then s.updateConclusion d id x (s.get l.id).concl else s
+      let s := if (s.get id).re then s.updateConclusion d id x (s.get r.id).concl else s
+      let s := k x (s.get id).isF s
+      s.upd id fun n => { n with concl := [] }
+    let evalRight := fun (src2 : Option Bnd) (s : KSt2) =>
+      let s := s.upd id fun n => { n with le := false }
+      let s := evalK2 pay r2 d leak dom r src2 (fun x2 f2 s =>
+        post x2 (s.upd id fun n => { n with isF := f2, re := true })) s
+      s.upd id fun n => { n with re := false }
+    let s := evalK2 pay r2 d leak dom l src (fun x f s =>
+      let s := s.upd id fun n => { n with le := true }
+      if f && !leak then
+        -- repaired: a false left result is passed on; the right side is evaluated once, from the incoming bindings
+        let s := s.upd id fun n => { n with isF := true, le := false }
+        let s := k x true s
+        s.upd id fun n => { n with concl := [] }
+      else if f then evalRight (some x) s
+      else post x (s.upd id fun n => { n with isF := false })) s
+    evalRight src s
+
+def runK2 (pay : Payload) (r2 : Rel2) (d : Dedup) (leak : Bool) (dom : List Nat) (nodes : List Node) (t : Sel) :
+    List (List Nat × Bnd) :=
+  (evalK2 pay r2 d leak dom t none (fun x f s =>
+    if f then s
+    else
+      let c := (s.get t.id).concl
+      if c.isEmpty then s else { s with out := s.out ++ [(c, x)] })
+    { ns := nodes.map fun n => { concl := conclOf pay n.concl } }).out
+
+inductive Obs2 where
+  | ok (rows : List (List Nat × Bnd))
+  | raised
+  | cyclic
+  | mismatch
+  deriving DecidableEq, Repr
+
+def modelOf2 (built : Option BState) (d : Dedup) (leak : Bool) (pay : Payload) (r2 : Rel2) (dom : List Nat) : Obs2 :=
+  match built with
+  | none => .raised
+  | some st =>
+    match st.tree with
+    | none => .cyclic
+    | some t =>
+      let rk := runK2 pay r2 d leak dom st.nodes t
+      if t.ids.Nodup then
+        let rt := topOuts2 (evalT2 pay r2 d leak dom t none []).1
+        if rt = rk then .ok rt else .mismatch
+      else .ok rk
+
+/-- builder + evaluator over two variables -/
+def modelA2 (q : Quirks) (leak : Bool) (pay : Payload) (r2 : Rel2) (a : Authored) (dom : List Nat) : Obs2 :=
+  modelOf2 (buildA q a) q.dedup leak pay r2 dom
+
+/-! ### specification over two variables
+
+A branch whose condition introduces `y` *holds* for a base binding when some value of `y` satisfies it, and fires
+once per such value (the witnesses); everything nested in it sees `y` bound. -/
+
+/-- the extensions of the binding that satisfy the block's condition -/
+def holdsExt (pay : Payload) (r2 : Rel2) (blk : Nat) (b : Bnd) : List Bnd :=
+  (leafBnds r2 [] blk (some b)).filter fun b' => leafHolds pay r2 blk b'
+
+def combine2 (chain : Option (List (Nat × Bnd))) (nexts : List (List (Nat × Bnd))) : Option (List (Nat × Bnd)) :=
+  match chain, nexts with
+  | none, [] => none
+  | c, ns => some (c.getD [] ++ ns.flatten)
+
+mutual
+def Rule.chain2 (pay : Payload) (r2 : Rel2) (b : Bnd) : Rule → Option (List (Nat × Bnd))
+  | .mk blk refs alts _ =>
+    let exts := holdsExt pay r2 blk b
+    if exts.isEmpty then alts.chainFirst2 pay r2 b
+    else some (exts.flatMap fun b' =>
+      (refs.firstFiring2 pay r2 b').getD ((pay blk).concl.map fun c => (c, b')))
+def Rules.chainFirst2 (pay : Payload) (r2 : Rel2) (b : Bnd) : Rules → Option (List (Nat × Bnd))
+  | .nil => none
+  | .cons a as => match a.chain2 pay r2 b with
+    | some c => some c
+    | none => as.chainFirst2 pay r2 b
+def Rules.firstFiring2 (pay : Payload) (r2 : Rel2) (b : Bnd) : Rules → Option (List (Nat × Bnd))
+  | .nil => none
+  | .cons r rs => match r.group2 pay r2 b with
+    | some c => some c
+    | none => rs.firstFiring2 pay r2 b
+def Rule.nextsOf2 (pay : Payload) (r2 : Rel2) (b : Bnd) : Rule → List (List (Nat × Bnd))
+  | .mk _ _ alts nexts => alts.nextsIn2 pay r2 b ++ nexts.nextGroups2 pay r2 b
+def Rules.nextsIn2 (pay : Payload) (r2 : Rel2) (b : Bnd) : Rules → List (List (Nat × Bnd))
+  | .nil => []
+  | .cons a as => a.nextsOf2 pay r2 b ++ as.nextsIn2 pay r2 b
+def Rules.nextGroups2 (pay : Payload) (r2 : Rel2) (b : Bnd) : Rules → List (List (Nat × Bnd))
+  | .nil => []
+  | .cons n ns => (match n.group2 pay r2 b with | some c => [c] | none => []) ++ ns.nextGroups2 pay r2 b
+def Rule.group2 (pay : Payload) (r2 : Rel2) (b : Bnd) : Rule → Option (List (Nat × Bnd))
+  | .mk blk refs alts nexts =>
+    let exts := holdsExt pay r2 blk b
+    combine2
+      (if exts.isEmpty then alts.chainFirst2 pay r2 b
+       else some (exts.flatMap fun b' =>
+         (refs.firstFiring2 pay r2 b').getD ((pay blk).concl.map fun c => (c, b'))))
+      (alts.nextsIn2 pay r2 b ++ nexts.nextGroups2 pay r2 b)
+end
+
+/-- the row an inferred instance shows: its class and the constructor arguments it was built from -/
+def rowOf (c : Nat) (b : Bnd) : Nat × Bnd := (c, keyOf [c] b)
+
+/-- **the specification over two variables** -/
+def spec2 (pay : Payload) (r2 : Rel2) (p : Prog) (dom : List Nat) : List (Nat × Bnd) :=
+  dom.flatMap fun x => ((p.toRule.group2 pay r2 (x, none)).getD []).map fun (c, b) => rowOf c b
+
+/-! ### triggers over two variables -/
+
+mutual
+/-- all classes concluded in a block and below it -/
+def Prog.classes (pay : Payload) : Prog → List Nat
+  | .mk b kids => (pay b).concl ++ kids.classes pay
+def Kids.classes (pay : Payload) : Kids → List Nat
+  | .nil => []
+  | .cons _ p rest => p.classes pay ++ rest.classes pay
+end
+
+mutual
+/-- some condition in the block or below it relates `x` and `y` -/
+def Prog.mentionsY (r2 : Rel2) : Prog → Bool
+  | .mk b kids => (r2.rel b).isSome || kids.mentionsY r2
+def Kids.mentionsY (r2 : Rel2) : Kids → Bool
+  | .nil => false
+  | .cons _ p rest => p.mentionsY r2 || rest.mentionsY r2
+end
+
+mutual
+/-- a refinement, in the block or below it, whose own subtree relates `x` and `y` -/
+def Prog.refMentionsY (r2 : Rel2) : Prog → Bool
+  | .mk _ kids => kids.refMentionsY r2
+def Kids.refMentionsY (r2 : Rel2) : Kids → Bool
+  | .nil => false
+  | .cons k p rest => (k = .ref && p.mentionsY r2) || p.refMentionsY r2 || rest.refMentionsY r2
+end
+
+mutual
+/-- F-C08-3 over two variables: a block whose condition *introduces* `y` (`ctx` = `y` already bound where the
+block's condition is evaluated) produces one result per value of `y`; if those results can carry different
+conclusions and one of them is built from `x` alone, its key `{x}` covers the keys of the others -/
+def Prog.trigWitness (pay : Payload) (r2 : Rel2) (ctx : Bool) : Prog → Bool
+  | .mk b kids =>
+    let here := (r2.rel b).isSome && !ctx &&
+      (let cs := ((pay b).concl ++ kids.classes pay).eraseDups
+       decide (cs.length ≥ 2) && cs.any fun c => !classUsesY c)
+    here || kids.trigWitness pay r2 ctx (ctx || (r2.rel b).isSome)
+def Kids.trigWitness (pay : Payload) (r2 : Rel2) (ctx ctxRef : Bool) : Kids → Bool
+  | .nil => false
+  | .cons k p rest =>
+    p.trigWitness pay r2 (if k = .ref then ctxRef else ctx) || rest.trigWitness pay r2 ctx ctxRef
+end
+
+mutual
+/-- F-C08-4: walk of one chain scope; `intro` = a member written so far (the scope's rule, an alternative, a
+next_rule) introduced `y`. A `next_rule` written after that, with a refinement below it that relates `x` and `y`,
+is evaluated once per *failed* value of `y` of that member, with `y` still bound. Returns (bad, intro). -/
+def Prog.trigLeakScope (r2 : Rel2) (ctx : Bool) : Prog → Bool
+  | .mk b kids => (kids.trigLeak r2 ctx (ctx || (r2.rel b).isSome) ((r2.rel b).isSome && !ctx)).1
+def Prog.trigLeakIn (r2 : Rel2) (ctx : Bool) (intro : Bool) : Prog → Bool × Bool
+  | .mk b kids => kids.trigLeak r2 ctx (ctx || (r2.rel b).isSome) (intro || ((r2.rel b).isSome && !ctx))
+def Kids.trigLeak (r2 : Rel2) (ctx ctxRef : Bool) (intro : Bool) : Kids → Bool × Bool
+  | .nil => (false, intro)
+  | .cons k p rest =>
+    match k with
+    | .ref =>
+      let b1 := p.trigLeakScope r2 ctxRef
+      let (b2, i2) := rest.trigLeak r2 ctx ctxRef intro
+      (b1 || b2, i2)
+    | _ =>
+      let bad := k = .next && intro && p.refMentionsY r2
+      let (b1, i1) := p.trigLeakIn r2 ctx intro
+      let (b2, i2) := rest.trigLeak r2 ctx ctxRef i1
+      (bad || b1 || b2, i2)
+end
+
 end KrroodVerif.Rdr
